@@ -526,9 +526,10 @@ class NodeDef:
         if (
             isinstance(value, ckl.functions.FuncLambda)
             and value.name == "lambda"
+            and isinstance(self.expression, NodeLambda)
         ):
-            # a function is named by its first definition; binding it to
-            # another name later does not rename the function value
+            # a function written in this definition is named by it; a
+            # function value that comes from elsewhere is left as it is
             value.name = self.identifier
         return value
 
